@@ -21,6 +21,7 @@ struct RState {
     blocked_on: bool,
     finished: bool,
     checks_after_release: u64,
+    result: Option<Outcome>,
 }
 
 struct ReaderCtl {
@@ -107,16 +108,16 @@ pub struct Scenario {
     pub batched: bool,
 }
 
-const A0: &str = "import b\npub fn main(x) { let y = b.inc(x) helper(y, [1, 2]) }\nfn helper(n, l) { case l { [h, ..t] -> h + n [] -> n } }\npub type W { W(f: Int) }\n";
+const A0: &str = "import b.{other}\npub fn main(x) { let y = b.inc(x) helper(y, [1, 2]) }\nfn helper(n, l) { case l { [h, ..t] -> h + n [] -> n } }\npub type W { W(f: Int) }\npub fn say() { other(\"s\") }\n";
 const B0: &str = "pub fn inc(n: Int) -> Int { n + 1 }\npub fn other(s) { s <> \"x\" }\n";
 
 pub fn scenarios() -> Vec<Scenario> {
     vec![
-        Scenario { name: "body-edit-cold", a0: A0, b0: B0, a1: "import b\npub fn main(x) { let y = b.inc(x) helper(y, [3, 4]) }\nfn helper(n, l) { case l { [h, ..t] -> h + n [] -> n } }\npub type W { W(f: Int) }\n", b1: B0, add_c: false, warm: false, graph_only: false, batched: false },
+        Scenario { name: "body-edit-cold", a0: A0, b0: B0, a1: "import b.{other}\npub fn main(x) { let y = b.inc(x) helper(y, [3, 4]) }\nfn helper(n, l) { case l { [h, ..t] -> h + n [] -> n } }\npub type W { W(f: Int) }\npub fn say() { other(\"s\") }\n", b1: B0, add_c: false, warm: false, graph_only: false, batched: false },
         Scenario { name: "signature-edit-cold", a0: A0, b0: B0, a1: A0, b1: "pub fn inc(n: Float) -> Float { n +. 1.0 }\npub fn other(s) { s <> \"x\" }\n", add_c: false, warm: false, graph_only: false, batched: false },
         Scenario { name: "structural-cold", a0: A0, b0: B0, a1: A0, b1: B0, add_c: true, warm: false, graph_only: false, batched: false },
         Scenario { name: "signature-edit-warm", a0: A0, b0: B0, a1: A0, b1: "pub fn inc(n: Float) -> Float { n +. 1.0 }\npub fn other(s) { s <> \"x\" }\n", add_c: false, warm: true, graph_only: false, batched: false },
-        Scenario { name: "two-texts-in-one-change", a0: A0, b0: B0, a1: "import b\npub fn main(x) { let y = b.inc(x) helper(y, [3, 4]) }\nfn helper(n, l) { case l { [h, ..t] -> h + n [] -> n } }\npub type W { W(f: Int) }\n", b1: B0, add_c: false, warm: false, graph_only: false, batched: true },
+        Scenario { name: "two-texts-in-one-change", a0: A0, b0: B0, a1: "import b.{other}\npub fn main(x) { let y = b.inc(x) helper(y, [3, 4]) }\nfn helper(n, l) { case l { [h, ..t] -> h + n [] -> n } }\npub type W { W(f: Int) }\npub fn say() { other(\"s\") }\n", b1: B0, add_c: false, warm: false, graph_only: false, batched: true },
         Scenario { name: "graph-only-cold", a0: A0, b0: B0, a1: A0, b1: B0, add_c: false, warm: false, graph_only: true, batched: false },
         Scenario { name: "graph-only-warm", a0: A0, b0: B0, a1: A0, b1: B0, add_c: false, warm: true, graph_only: true, batched: false },
     ]
@@ -208,6 +209,8 @@ pub fn query_menu() -> Vec<(Q, u32)> {
     let after_let = A0.find("helper(y").unwrap() as u32;
     vec![
         (Q::Hover, inc),
+        (Q::Hover, A0.find("other(").unwrap() as u32),
+        (Q::Goto, A0.find("other(").unwrap() as u32),
         (Q::Hover, main),
         (Q::Goto, inc),
         (Q::Refs, helper_call),
@@ -256,19 +259,33 @@ pub fn run_schedule(sc: &Scenario, readers: &[(Q, u32, Option<u64>)], release_or
     let probe = host.snapshot();
     let ctls: Vec<Arc<ReaderCtl>> = readers.iter().map(|r| ReaderCtl::new(r.2)).collect();
     let mut handles = vec![];
+    let mut post_tx: Vec<std::sync::mpsc::Sender<ide::Analysis>> = vec![];
+    // what every reader thread asks again, on its own thread, on a snapshot taken after the change
+    let unq = A0.find("other(").unwrap() as u32;
     for (i, (q, off, _)) in readers.iter().enumerate() {
         let snap = host.snapshot();
         let ctl = ctls[i].clone();
         let (q, off) = (*q, *off);
+        let (tx, rx) = std::sync::mpsc::channel::<ide::Analysis>();
+        post_tx.push(tx);
         handles.push(std::thread::spawn(move || {
             ide::verif::set_thread_controller(Some(ctl.clone() as Arc<dyn Controller>));
             let out = run_query(&snap, q, FA, off).outcome;
             drop(snap);
             ide::verif::set_thread_controller(None);
-            let mut s = ctl.st.lock().unwrap();
-            s.finished = true;
-            ctl.cv.notify_all();
-            out
+            {
+                let mut s = ctl.st.lock().unwrap();
+                s.finished = true;
+                s.result = Some(out.clone());
+                ctl.cv.notify_all();
+            }
+            // the thread lives on (like a thread of the server's blocking pool) and serves a
+            // request on the workspace after the change
+            let post: Vec<Outcome> = match rx.recv_timeout(T) {
+                Ok(an) => [(q, off), (Q::Hover, unq), (Q::Goto, unq)].iter().map(|(q, o)| run_query(&an, *q, FA, *o).outcome).collect(),
+                Err(_) => vec![],
+            };
+            (out, post)
         }));
     }
     let mut settled = vec![];
@@ -314,8 +331,23 @@ pub fn run_schedule(sc: &Scenario, readers: &[(Q, u32, Option<u64>)], release_or
     let mut outcomes = vec![];
     let mut n_checks = vec![];
     let mut cancelled_mid = false;
-    for (i, h) in handles.into_iter().enumerate() {
-        let out = h.join().unwrap_or(Outcome::Panic("reader thread died".into()));
+    for i in 0..handles.len() {
+        let start = Instant::now();
+        let out = loop {
+            {
+                let s = ctls[i].st.lock().unwrap();
+                if s.finished {
+                    break s.result.clone().unwrap_or(Outcome::Panic("reader left no result".into()));
+                }
+            }
+            if handles[i].is_finished() {
+                break Outcome::Panic("reader thread died".into());
+            }
+            if start.elapsed() > T {
+                break Outcome::Panic("reader did not finish".into());
+            }
+            std::thread::sleep(Duration::from_micros(50));
+        };
         let (q, off, park) = readers[i];
         let pre = answer(&pre_host, q, off);
         let s = ctls[i].st.lock().unwrap();
@@ -366,6 +398,22 @@ pub fn run_schedule(sc: &Scenario, readers: &[(Q, u32, Option<u64>)], release_or
                 let want = answer(&post_host, *q, *off);
                 if got != want {
                     problems.push(("stale-after-change".into(), format!("{q:?} on a snapshot taken after the change differs from a fresh analysis of the new workspace")));
+                }
+            }
+            // the same on the readers' own threads (what a cancelled query left behind on its
+            // thread must not reach the next request served there)
+            for tx in &post_tx {
+                let _ = tx.send(h.snapshot());
+            }
+            for (i, hd) in handles.into_iter().enumerate() {
+                let Ok((_, post)) = hd.join() else { continue };
+                let (q, off, park) = readers[i];
+                let asked = [(q, off), (Q::Hover, unq), (Q::Goto, unq)];
+                for (k, got) in post.iter().enumerate() {
+                    let want = answer(&post_host, asked[k].0, asked[k].1);
+                    if *got != want {
+                        problems.push(("stale-after-change-on-the-reader-thread".into(), format!("{:?} at {} asked after the change on the thread of reader {i} ({q:?}, parked at {park:?}) gives {:?}, a fresh analysis of the new workspace {:?}", asked[k].0, asked[k].1, got, want)));
+                    }
                 }
             }
         }
